@@ -145,3 +145,35 @@ Qed.
 
 (* a string of valid UTF-8 built from scalars decodes: the library's own validator accepts what
    decodes here (one direction, for encodings of scalars): see utf8_encode_ok *)
+
+(* histories at the character level *)
+Fixpoint cspec_run (cap : N) (ops : list vop) (cs : list N) : list N * list oout :=
+  match ops with
+  | [] => (cs, [])
+  | op :: r =>
+      let s := cspec_step cap cs op in
+      let u := cspec_run cap r (fst s) in
+      (fst u, snd s :: snd u)
+  end.
+
+Definition char_op (op : vop) : Prop := match op with SPushChar _ | VClear => True | _ => False end.
+
+Theorem sspec_run_chars cap ops : Forall char_op ops -> forall cs,
+  sspec_run cap ops (text_of cs) =
+  (text_of (fst (cspec_run cap ops cs)), snd (cspec_run cap ops cs)).
+Proof.
+  induction ops as [|op ops IH]; intros Hops cs; [reflexivity|].
+  inversion Hops as [|o r Hop Hops']; subst o r.
+  cbn [sspec_run cspec_run fst snd].
+  rewrite (sspec_step_chars cap cs op Hop). cbn [fst snd].
+  rewrite (IH Hops'). reflexivity.
+Qed.
+
+(* the characters of a history of pushes read back from the final text *)
+Theorem sspec_run_chars_decode cap ops cs : Forall char_op ops ->
+  Forall (fun c => c < 1114112) (fst (cspec_run cap ops cs)) ->
+  utf8_dec (fst (sspec_run cap ops (text_of cs))) = Some (fst (cspec_run cap ops cs)).
+Proof.
+  intros Hops Hcs. rewrite (sspec_run_chars cap ops Hops cs). cbn [fst].
+  apply text_of_decodes. exact Hcs.
+Qed.
